@@ -3,6 +3,7 @@ CONSTANTS
   Threads = {"t1", "t2"}
   Progs <- ProgTable
   Dev = {"user_def_leaks"}
+  ProgSel = {"rd", "wr", "df", "pu", "uid", "uid2"}
   MaxJobs = 1
 INVARIANTS MatchesAlone
 CHECK_DEADLOCK FALSE
